@@ -4,6 +4,7 @@
 # existing rows of) seeded/MATRIX.txt. With -o only the check of the property the change breaks is
 # run (other columns show "-"): a quick regression pass after a simulator was extended.
 cd /verif
+export VERIF_NO_EVIDENCE=1
 PROPS="C01 C03 C04 C06 C07 C08 C09 C10 C12 C14 C15 C19 C20"
 OUT=seeded/MATRIX.txt
 OWN=0
